@@ -11,6 +11,7 @@ import H264.SeiPayloads
 import H264.Render3
 import H264.Context
 import H264.TblModel
+import H264.SeiScratch
 /-! Line-protocol driver: executes the model on the same case lines as the Rust harness and prints the same
 canonical observation per line (see /verif/harness/src/run.rs for the formats). Core-only imports: links as a
 native executable. -/
@@ -186,18 +187,19 @@ def errStr : Bits.Err → String
   | .remaining => "Remaining"
   | _ => "Other"
 
-def seiGo : Nat → Nat → Sei.Reader → List String → List String
-  | 0, _, _, acc => acc
-  | fuel+1, extra, r, acc =>
+def seiGo : Nat → Nat → Sei.Reader → List UInt8 → List String → List String
+  | 0, _, _, _, acc => acc
+  | fuel+1, extra, r, sc, acc =>
     if extra ≥ 4 then acc else
-    match Sei.next r with
-    | (r', .ok (some m)) => seiGo fuel extra r' (("msg:" ++ toString m.1 ++ ":" ++ hexOf m.2) :: acc)
-    | (r', .ok none) => seiGo fuel (extra + 1) r' ("end" :: acc)
-    | (r', .error e) => seiGo fuel (extra + 1) r' (("err:" ++ errStr e) :: acc)
+    -- the reader with its scratch vector (`Sei.nextS`; proved to return what the scratch-free `Sei.next` returns)
+    match Sei.nextS r sc with
+    | (r', .ok (some m), sc') => seiGo fuel extra r' sc' (("msg:" ++ toString m.1 ++ ":" ++ hexOf m.2) :: acc)
+    | (r', .ok none, sc') => seiGo fuel (extra + 1) r' sc' ("end" :: acc)
+    | (r', .error e, sc') => seiGo fuel (extra + 1) r' sc' (("err:" ++ errStr e) :: acc)
 
 def seiOn (chunks : List (List UInt8)) (complete : Bool) : String :=
   let d := NalSrc.drain (NalSrc.rbspBytes chunks complete)
-  " ".intercalate (seiGo (d.1.length + 8) 0 ⟨⟨d.1, NalSrc.kindOf d.2⟩, 0, false⟩ []).reverse
+  " ".intercalate (seiGo (d.1.length + 8) 0 ⟨⟨d.1, NalSrc.kindOf d.2⟩, 0, false⟩ (List.replicate 7 0xAA) []).reverse
 
 /-! ### avcc -/
 def avccRes {α} (f : α → String) : Avcc.Res α → String
